@@ -61,4 +61,27 @@ WalkFindsBlock(c) == Walk(c, 1, <<>>) = Len(c.tr)
 \* one time block in bytes, and the number of complete blocks in the first n bytes
 BlockSize(c) == SumPayload(FlattenSeq([s \in 1..Len(c.tr) |-> BpchBlock(c, s, 1)]))
 CompleteBlocks(c, n) == IF n < 136 THEN 0 ELSE (n - 136) \div BlockSize(c)
+
+\* ---- the memory-mapped reader on the first n bytes of a file (C14)
+\* pos[s + 1]: offset after the s-th tracer block of the first time block
+TracerBytes(c, s) == 44 + 176 + Skip(c, s)
+RECURSIVE PosAfter(_, _)
+PosAfter(c, s) == IF s = 0 THEN 136 ELSE PosAfter(c, s - 1) + TracerBytes(c, s)
+PosSeq(c) == [q \in 1..(Len(c.tr) + 1) |-> PosAfter(c, q - 1)]
+\* the header walk: K tracers have been passed; a further header (the next
+\* tracer, or the repeat of the first one) is read only while the offset is
+\* inside the file, and must then be mappable (220 bytes); -1 = error
+RECURSIVE Discover(_, _, _, _)
+Discover(pos, ntr, n, K) ==
+  IF pos[K + 1] >= n THEN K
+  ELSE IF pos[K + 1] + 220 > n THEN -1
+  ELSE IF K = ntr THEN K
+  ELSE Discover(pos, ntr, n, K + 1)
+BpchOpenZ(pos, ntr, n) ==
+  IF n < 136 + 220 THEN [k |-> "Err", n |-> 0, K |-> 0]
+  ELSE LET K == Discover(pos, ntr, n, 1) IN
+       IF K = -1 THEN [k |-> "Err", n |-> 0, K |-> 0]
+       ELSE LET steps == (n - 136) \div (pos[K + 1] - 136) IN
+            IF steps = 0 THEN [k |-> "Err", n |-> 0, K |-> 0] ELSE [k |-> "Steps", n |-> steps, K |-> K]
+BpchOpenF(c, n) == BpchOpenZ(PosSeq(c), Len(c.tr), n)
 =================================================================================
